@@ -53,6 +53,9 @@ SubCases ==
   { [filters |-> <<f>>, ups |-> up] : f \in FltAll, up \in UpsChoices }
   \cup { [filters |-> <<f, g>>, ups |-> <<>>] : f \in FltAll, g \in {Flt(5, 2, TRUE, FALSE, 1), Flt(1, 0, FALSE, TRUE, 2)} }
   \cup { [filters |-> <<Flt(3, 1, FALSE, FALSE, 0), Flt(4, 2, TRUE, TRUE, 2), Flt(5, 0, FALSE, TRUE, 1)>>, ups |-> up] : up \in UpsChoices }
+  \* the same topic filter listed twice (legal; the entries are the caller's, each gets its reason code): written as supplied
+  \cup { [filters |-> <<f, Flt(3, 0, TRUE, TRUE, 1)>>, ups |-> <<>>] : f \in FltAll }
+  \cup { [filters |-> <<Flt(3, 2, FALSE, FALSE, 0), Flt(4, 1, FALSE, FALSE, 0), Flt(3, 2, FALSE, FALSE, 0)>>, ups |-> <<>>] }
   \cup { [filters |-> <<Flt(n, 1, FALSE, FALSE, 0)>>, ups |-> <<>>] : n \in (SLens \ {0}) \cup Win }
   \cup { [filters |-> <<Flt(3, 1, FALSE, FALSE, 0)>>, ups |-> <<<<F("k", 2), F("v", n)>>>>] : n \in Win }
   \cup { [filters |-> <<>>, ups |-> up] : up \in UpsChoices }
@@ -61,7 +64,8 @@ ASSUME ndJsonSerialize(Out("tx_sub.ndjson"), SetToSeq({[kind |-> "sub", o |-> o,
 
 UnsubCases ==
   { [filters |-> fs, ups |-> up] :
-      fs \in {<<>>, <<[f |-> F("f", 3)]>>, <<[f |-> F("f", 3)], [f |-> F("g~", 7)]>>, <<[f |-> F("f", 1)], [f |-> F("g", 2)], [f |-> F("h", 3)]>>},
+      fs \in {<<>>, <<[f |-> F("f", 3)]>>, <<[f |-> F("f", 3)], [f |-> F("g~", 7)]>>, <<[f |-> F("f", 1)], [f |-> F("g", 2)], [f |-> F("h", 3)]>>,
+              <<[f |-> F("f", 3)], [f |-> F("f", 3)]>>, <<[f |-> F("f", 3)], [f |-> F("g", 2)], [f |-> F("f", 3)]>>},
       up \in UpsChoices }
   \cup { [filters |-> <<[f |-> F("f", n)]>>, ups |-> <<>>] : n \in (SLens \ {0}) \cup Win }
   \cup { [filters |-> <<[f |-> F("f", 3)]>>, ups |-> <<<<F("k", 2), F("v", n)>>>>] : n \in Win }
